@@ -1089,7 +1089,7 @@ func c13AnswerReturned(c *Ctx) {
 		for _, b := range f.Blocks {
 			for _, in := range b.Instrs {
 				ret, ok := an.AsReturn(in)
-				if !ok || len(ret.Results) != 2 || !an.MayBeNilConst(an.RetVal(ret, 1)) {
+				if !ok || len(ret.Results) != 2 || !an.MayReturnNil(ret, 1) {
 					continue
 				}
 				n++
